@@ -8,93 +8,25 @@
        wrote survives, so every effect after the line end is produced (again, and only) by the
        continue that commits it. *)
 From Ink.Engine Require Import Api Tie.
-From Ink.Shell Require Import Keeps.
+From Ink.Shell Require Import Keeps KeepsStep.
 
 Section SnapKeeps.
 Variable I : iface.
 Variable sw : switches.
-Notation K := (Keeps w_snapshot).
-
 Lemma snap_state w g : w_snapshot (w <| w_state ::= g |>) = w_snapshot w.
 Proof. destruct w; reflexivity. Qed.
-Hint Resolve snap_state : keeps.
-
-Ltac ks := repeat (keeps_step || (apply keeps_mod_state; exact snap_state)
-                   || (apply keeps_m_read; exact snap_state) || (apply keeps_m_state_res; exact snap_state)
-                   || (apply keeps_m_cs_res; exact snap_state) || (apply keeps_get_state)).
-
-Lemma ks_m_root : K m_root. Proof. unfold m_root. ks. Qed.
-Lemma ks_m_defs : K m_defs. Proof. unfold m_defs. ks. Qed.
-Hint Resolve ks_m_root ks_m_defs : keeps.
-Lemma ks_log_event e : K (log_event e). Proof. unfold log_event. ks. Qed.
-Hint Resolve ks_log_event : keeps.
-Lemma ks_push_eval o : K (push_eval I o). Proof. unfold push_eval. ks. Qed.
-Lemma ks_pop_eval : K pop_eval. Proof. unfold pop_eval. ks. Qed.
-Lemma ks_peek_eval : K peek_eval. Proof. unfold peek_eval. ks. Qed.
-Lemma ks_pop_eval_multiple n : K (pop_eval_multiple n). Proof. unfold pop_eval_multiple. ks. Qed.
-Hint Resolve ks_push_eval ks_pop_eval ks_peek_eval ks_pop_eval_multiple : keeps.
-Lemma ks_m_push_output o : K (m_push_output o). Proof. unfold m_push_output. ks. Qed.
-Hint Resolve ks_m_push_output : keeps.
-Lemma ks_add_error_msg m b : K (add_error_msg m b). Proof. unfold add_error_msg. ks. Qed.
-Hint Resolve ks_add_error_msg : keeps.
-Lemma ks_add_error m b : K (add_error m b). Proof. unfold add_error. ks. Qed.
-Hint Resolve ks_add_error : keeps.
-Lemma ks_visit_container cp b : K (visit_container cp b). Proof. unfold visit_container. ks. Qed.
-Hint Resolve ks_visit_container : keeps.
-Lemma ks_visit_changed_loop fuel : forall prevs child b, K (visit_changed_loop fuel prevs child b).
-Proof. induction fuel as [|f IH]; intros; cbn [visit_changed_loop]; ks. Qed.
-Hint Resolve ks_visit_changed_loop : keeps.
-Lemma ks_visit_changed : K visit_changed_containers_due_to_divert.
-Proof. unfold visit_changed_containers_due_to_divert. ks. Qed.
-Hint Resolve ks_visit_changed : keeps.
-Lemma ks_increment_content_pointer : K increment_content_pointer.
-Proof. unfold increment_content_pointer. ks. Qed.
-Hint Resolve ks_increment_content_pointer : keeps.
-Lemma ks_pop_callstack t : K (pop_callstack t). Proof. unfold pop_callstack. ks. Qed.
-Hint Resolve ks_pop_callstack : keeps.
-Lemma ks_try_exit : K try_exit_function_evaluation_from_game.
-Proof. unfold try_exit_function_evaluation_from_game. ks. Qed.
-Hint Resolve ks_try_exit : keeps.
-Lemma ks_next_content_fuel fuel : K (next_content_fuel I fuel).
-Proof. induction fuel as [|f IH]; cbn [next_content_fuel]; ks. Qed.
-Hint Resolve ks_next_content_fuel : keeps.
-Lemma ks_next_content : K (next_content I). Proof. unfold next_content. ks. Qed.
-Hint Resolve ks_next_content : keeps.
-Lemma ks_choose_path pa b : K (choose_path I sw pa b). Proof. unfold choose_path. ks. Qed.
-Hint Resolve ks_choose_path : keeps.
-Lemma ks_pop_args n : forall acc, K (pop_args n acc).
-Proof. induction n as [|n IH]; intros; cbn [pop_args]; ks. Qed.
-Hint Resolve ks_pop_args : keeps.
-Lemma ks_call_external name n : K (call_external_function I sw name n).
-Proof. unfold call_external_function. ks. Qed.
-Hint Resolve ks_call_external : keeps.
-Lemma ks_shuffle : K (next_sequence_shuffle_index I). Proof. unfold next_sequence_shuffle_index. ks. Qed.
-Hint Resolve ks_shuffle : keeps.
-Lemma ks_pop_tags fuel : forall tags, K (pop_tags fuel tags).
-Proof. induction fuel as [|f IH]; intros; cbn [pop_tags]; ks. Qed.
-Hint Resolve ks_pop_tags : keeps.
-Lemma ks_pop_choice_string tags : K (pop_choice_string_and_tags tags).
-Proof. unfold pop_choice_string_and_tags. ks. Qed.
-Hint Resolve ks_pop_choice_string : keeps.
-Lemma ks_process_choice cp f pa : K (process_choice I cp f pa). Proof. unfold process_choice. ks. Qed.
-Hint Resolve ks_process_choice : keeps.
-Lemma ks_try_follow : K (try_follow_default_invisible_choice I sw).
-Proof. unfold try_follow_default_invisible_choice. ks. Qed.
-Hint Resolve ks_try_follow : keeps.
-Lemma ks_set_in_expr b : K (set_in_expr b). Proof. unfold set_in_expr. ks. Qed.
-Hint Resolve ks_set_in_expr : keeps.
-Lemma ks_do_command c o : K (do_command I c o). Proof. unfold do_command. destruct c; ks. Qed.
-Hint Resolve ks_do_command : keeps.
-Lemma ks_perform_logic op : K (perform_logic_and_flow_control I sw op).
-Proof. unfold perform_logic_and_flow_control. ks. Qed.
-Hint Resolve ks_perform_logic : keeps.
-Lemma ks_enter_containers fuel : forall pt, K (enter_containers fuel pt).
-Proof. induction fuel as [|f IH]; intros; cbn [enter_containers]; ks. Qed.
-Hint Resolve ks_enter_containers : keeps.
-Lemma ks_take_fuel : K take_fuel. Proof. unfold take_fuel. ks. Qed.
-Hint Resolve ks_take_fuel : keeps.
-Theorem ks_step : K (step I sw). Proof. unfold step. ks. Qed.
-Lemma ks_can_continue : K m_can_continue. Proof. unfold m_can_continue. ks. Qed.
+Lemma snap_events w g : w_snapshot (w <| w_events ::= g |>) = w_snapshot w.
+Proof. destruct w; reflexivity. Qed.
+Lemma snap_unsafe w b : w_snapshot (w <| w_saw_unsafe := b |>) = w_snapshot w.
+Proof. destruct w; reflexivity. Qed.
+Lemma snap_fuel w g : w_snapshot (w <| w_fuel ::= g |>) = w_snapshot w.
+Proof. destruct w; reflexivity. Qed.
+Theorem ks_step : Keeps w_snapshot (step I sw).
+Proof. apply kp_step; intros; first [apply snap_state|apply snap_events|apply snap_unsafe|apply snap_fuel]. Qed.
+Lemma ks_can_continue : Keeps w_snapshot m_can_continue.
+Proof. apply kp_can_continue; intros; apply snap_state. Qed.
+Lemma ks_try_follow : Keeps w_snapshot (try_follow_default_invisible_choice I sw).
+Proof. apply kp_try_follow; intros; first [apply snap_state|apply snap_events|apply snap_unsafe|apply snap_fuel]. Qed.
 End SnapKeeps.
 
 Section Rewind.
